@@ -494,4 +494,36 @@ def instanceValues (defs : List Def) : Except Err (List (Nat Ã— List (List Nat Ã
 def runLog (defs : List Def) : List Ev :=
   loadInstanceLog defs ++ (match defs.getLast? with | some d => [.body d.id] | none => [])
 
+/-! ### the third way runtime objects are made: a saved *value* loaded as instances
+    (`serialization.from_state_dict(state, as_instance=True)` / `serialization.load(path, as_instance=True)`) -/
+
+/-- the events of `ConfigInformation.load_objects(definitions, as_instance=True)` alone.
+    First loop: one object per definition, in definition order (`cls.XPMValue.__new__`, no `__init__`).
+    Second loop, again in definition order, for each definition: the parameter-less `__init__()`, `setattr`
+    of every written field (`_objectFromParameters` only looks objects up: a reference is the object created
+    by the first loop, whether or not it was filled yet), then `__post_init__()` â€” on EVERY definition,
+    whatever refers to it (roots, inner nodes, upstream tasks behind a `task` link, lightweight tasks).
+    `pre-tasks` / `init-tasks` / `task` members of a definition are not read at all when `as_instance`. -/
+def loadObjectsLog (defs : List Def) : List Ev :=
+  defs.map (fun d => Ev.new d.id) ++ defs.flatMap fillEvents
+
+/-- the call log of `from_state_dict(state, as_instance=True)` (and of `load(path, as_instance=True)`, which
+    reads `definition.json` and calls it): `load_objects(state["objects"], as_instance=True)`, then
+    `_objectFromParameters(state["data"], objects)`, which builds lists / dictionaries and looks objects up â€”
+    it calls nothing on them.  Unlike `fromParameters`, nothing is executed afterwards: no pre-task, no
+    init task (`state_load_runs_no_pretask`). -/
+def loadStateLog (defs : List Def) (_data : JVal) : List Ev := loadObjectsLog defs
+
+/-- what `from_state_dict(state, as_instance=True)` returns and what the objects hold: the parameter values
+    assigned to each runtime object (keyed by the id of its definition, in definition order) and the decoded
+    `data`; in both, `.ref n` is THE runtime object created for definition `n` (`objects[n]`).
+    `assert definition["id"] not in objects` is the duplicate check of the first loop. -/
+def fromStateDictInst (st : List Def Ã— JVal) : Except Err (List (Nat Ã— List (List Nat Ã— Val)) Ã— Val) :=
+  match firstDup (st.1.map (Â·.id)) with
+  | some x => .error (.duplicateId x)
+  | none =>
+    match instanceValues st.1 with
+    | .error e => .error e
+    | .ok attrs => (decJ (st.1.map (Â·.id)) st.2).map (fun v => (attrs, v))
+
 end XpmVerif.Serial
